@@ -12,6 +12,7 @@
 //!        | {"op":"handle","mod","sym","send":bool}          `get_owned(sym)`: read it (call it if it is a function), then
 //!                                                           drop the handle here or on another thread (which re-reads first)
 //!        | {"op":"globals","kind":"standard"|"extended"|"harness","adopt":bool}   build a Globals, observe its names
+//! (`"inject":"double-drop"` is a self-test knob: every worker drops its clone of the first library once too often.)
 //! result = {"id","threads","ops","equal":bool,"diff":{..}|null,"xdrops":n,"xfail":[..],"events":[..],"panic"?}
 //!
 //! Every thread's transcript (per op: the `emit`/`print` output, exported values, outcome) is compared with the
@@ -443,6 +444,7 @@ fn worker(
     barrier: Option<Arc<Barrier>>,
     seed: u64,
     jitter_us: u64,
+    inject_double_drop: bool,
 ) -> ThreadOut {
     let mut rng = Rng(seed | 1);
     if let Some(b) = &barrier {
@@ -476,6 +478,14 @@ fn worker(
     for i in 0..nlibs {
         let id = ctx.mods[i].1.id;
         ctx.ev(format!("Rv {} {} {}", tid, id.0, id.1));
+    }
+    if inject_double_drop && conc && nlibs > 0 {
+        // SELF-TEST KNOB (never set by the check): a drop without a matching holder - the situation of
+        // `C20_ex_double_drop_breaks_invariant` - to measure that the harness notices a heap freed while in use.
+        unsafe {
+            let dup: FrozenModule = std::ptr::read(&ctx.mods[0].1.fm);
+            drop(dup);
+        }
     }
     let mut transcripts = Vec::with_capacity(ops.len());
     for op in &ops {
@@ -541,6 +551,7 @@ fn run_round(case: &J) -> J {
     let threads_j = case["threads"].as_array().cloned().unwrap_or_default();
     let n = threads_j.len();
     let seq_first = case["seq_first"].as_bool().unwrap_or(false);
+    let inject = case["inject"].as_str() == Some("double-drop");
     let mut events: Vec<(u64, String)> = Vec::new();
     let (libs, globals) = match build_libs(case, &mut events) {
         Ok(x) => x,
@@ -555,7 +566,7 @@ fn run_round(case: &J) -> J {
             let (ops, l, g) = (ops_of(i), libs.clone(), globals.clone());
             let h = std::thread::Builder::new()
                 .stack_size(stack)
-                .spawn(move || worker(i + 1, false, ops, l, g, Vec::new(), None, None, seed, 0))
+                .spawn(move || worker(i + 1, false, ops, l, g, Vec::new(), None, None, seed, 0, false))
                 .map_err(|e| format!("spawn: {}", e))?;
             outs.push(h.join().map_err(|e| format!("sequential workload {} panicked: {}", i, panic_msg(&*e)))?);
         }
@@ -590,7 +601,7 @@ fn run_round(case: &J) -> J {
         let s = seed.wrapping_mul(6364136223846793005).wrapping_add(i as u64 + 1);
         let h = std::thread::Builder::new()
             .stack_size(stack)
-            .spawn(move || worker(i + 1, true, ops, l, g, peers, rx, Some(b), s, jitter_us));
+            .spawn(move || worker(i + 1, true, ops, l, g, peers, rx, Some(b), s, jitter_us, inject));
         match h {
             Ok(h) => handles.push(h),
             Err(e) => return json!({"id": case["id"], "setup_error": format!("spawn: {}", e)}),
